@@ -26,7 +26,11 @@ use metrique_aggregation::aggregator::{Aggregate, KeyedAggregator};
 use metrique_aggregation::sink::{CloseAndMergeOnDrop, MutexSink, NonAggregatedSink, TeeSink, WorkerSink, non_aggregate};
 use metrique_aggregation::traits::{AggregateSink, AggregateSinkRef, AggregateStrategy, FlushableSink, Key, RootSink};
 use metrique_aggregation::value::{Distribution, Flatten, KeepLast, MergeOptions, Sum};
-use metrique_writer::test_util::{TestEntry, test_entry_sink, test_metric};
+use metrique_writer::sink::FlushWait;
+use metrique_writer::test_util::{TestEntry, test_entry_sink, test_metric, to_test_entry};
+use metrique_writer::AnyEntrySink;
+use std::sync::atomic::{AtomicU64, Ordering};
+use std::sync::{Arc, Mutex};
 use metrique_writer::unit::None as NoUnit;
 use metrique_writer::{MetricFlags, MetricValue, Observation, Unit, Value, ValueWriter};
 use std::borrow::Cow;
@@ -454,37 +458,80 @@ impl Run {
 // ------------------------------------------------------------------------------------------------
 // Running the implementation
 
+/// downstream sink: records `TestEntry`s like the repo's `Inspector`, optionally slowly (the delay
+/// sits *before* the entry becomes visible, so that a flush request answered before the inner
+/// flush has finished is observable)
+#[derive(Clone, Default)]
+struct Rec {
+    entries: Arc<Mutex<Vec<TestEntry>>>,
+    delay_us: u64,
+}
+impl AnyEntrySink for Rec {
+    fn append_any(&self, entry: impl metrique_writer::Entry + Send + 'static) {
+        let e = to_test_entry(entry);
+        if self.delay_us > 0 {
+            std::thread::sleep(Duration::from_micros(self.delay_us));
+        }
+        self.entries.lock().unwrap().push(e);
+    }
+    fn flush_async(&self) -> FlushWait {
+        FlushWait::ready()
+    }
+}
+impl Rec {
+    fn new(delay_us: u64) -> (Rec, BoxEntrySink) {
+        let r = Rec { entries: Default::default(), delay_us };
+        (r.clone(), BoxEntrySink::new(r))
+    }
+    fn entries(&self) -> Vec<TestEntry> {
+        self.entries.lock().unwrap().clone()
+    }
+}
+
+fn case_hash(s: &str) -> u64 {
+    let mut h: u64 = 0xcbf29ce484222325;
+    for b in s.bytes() {
+        h ^= b as u64;
+        h = h.wrapping_mul(0x100000001b3);
+    }
+    h
+}
+
+/// how long the harness waits for a flush answer / the worker's exit (shortened only while a
+/// termination failure is being minimised; the reported case is confirmed with the full wait)
+static WAIT_MS: AtomicU64 = AtomicU64::new(20_000);
+fn exit_wait() -> Duration {
+    Duration::from_millis(WAIT_MS.load(Ordering::Relaxed))
+}
+
 type TeeInner = TeeSink<
     KeyedAggregator<Call, BoxEntrySink>,
     TeeSink<KeyedAggregator<ByEndpointWeak, BoxEntrySink>, NonAggregatedSink<BoxEntrySink>>,
 >;
 
 struct TeeParts {
-    a: metrique_writer::test_util::TestEntrySink,
-    b: metrique_writer::test_util::TestEntrySink,
-    raw: metrique_writer::test_util::TestEntrySink,
+    a: Rec,
+    b: Rec,
+    raw: Rec,
     seen_a: usize,
     seen_b: usize,
 }
 
-fn make_tee() -> (TeeInner, TeeParts) {
-    let a = test_entry_sink();
-    let b = test_entry_sink();
-    let raw = test_entry_sink();
+fn make_tee(delay_us: u64) -> (TeeInner, TeeParts) {
+    let (a, sa) = Rec::new(delay_us);
+    let (b, sb) = Rec::new(delay_us);
+    let (raw, sraw) = Rec::new(0);
     let tee = TeeSink::new(
-        KeyedAggregator::<Call, BoxEntrySink>::new(a.sink.clone()),
-        TeeSink::new(
-            KeyedAggregator::<ByEndpointWeak, BoxEntrySink>::new(b.sink.clone()),
-            non_aggregate(raw.sink.clone()),
-        ),
+        KeyedAggregator::<Call, BoxEntrySink>::new(sa),
+        TeeSink::new(KeyedAggregator::<ByEndpointWeak, BoxEntrySink>::new(sb), non_aggregate(sraw)),
     );
     (tee, TeeParts { a, b, raw, seen_a: 0, seen_b: 0 })
 }
 
 impl TeeParts {
     fn take(&mut self) -> (Vec<Agg>, Vec<Agg>) {
-        let ea = self.a.inspector.entries();
-        let eb = self.b.inspector.entries();
+        let ea = self.a.entries();
+        let eb = self.b.entries();
         let r = (ea[self.seen_a..].iter().map(agg_of).collect(), eb[self.seen_b..].iter().map(agg_of).collect());
         self.seen_a = ea.len();
         self.seen_b = eb.len();
@@ -523,7 +570,7 @@ fn run_keyed(c: &Case) -> Run {
 
 fn run_tee(c: &Case) -> Run {
     let mut run = Run::default();
-    let (mut tee, mut parts) = make_tee();
+    let (mut tee, mut parts) = make_tee(0);
     let r = catch(|| {
         let mut epochs = vec![];
         for t in &c.toks {
@@ -542,7 +589,7 @@ fn run_tee(c: &Case) -> Run {
         Ok(e) => run.epochs = e,
         Err(p) => run.trouble.push(format!("panic:{p}")),
     }
-    run.raw = Some(parts.raw.inspector.entries());
+    run.raw = Some(parts.raw.entries());
     run
 }
 
@@ -622,7 +669,6 @@ impl<S> Drop for Probe<S> {
 
 type Worker = WorkerSink<CallEntry, Probe<TeeInner>>;
 
-const EXIT_WAIT: Duration = Duration::from_secs(20);
 
 fn rt() -> tokio::runtime::Runtime {
     tokio::runtime::Builder::new_current_thread().enable_time().build().unwrap()
@@ -630,7 +676,7 @@ fn rt() -> tokio::runtime::Runtime {
 
 /// `flush().await` with a generous bound; `Err` describes a flush that did not complete
 fn flush_blocking(rt: &tokio::runtime::Runtime, w: &Worker) -> Result<(), String> {
-    match catch(|| rt.block_on(async { tokio::time::timeout(EXIT_WAIT, w.flush()).await })) {
+    match catch(|| rt.block_on(async { tokio::time::timeout(exit_wait(), w.flush()).await })) {
         Ok(Ok(())) => Ok(()),
         Ok(Err(_)) => Err("flush-timeout".into()),
         Err(p) => Err(format!("flush-panic:{p}")),
@@ -639,7 +685,9 @@ fn flush_blocking(rt: &tokio::runtime::Runtime, w: &Worker) -> Result<(), String
 
 fn run_worker(c: &Case) -> Run {
     let mut run = Run::default();
-    let (tee, mut parts) = make_tee();
+    // a third of the cases run with a slow downstream sink (deterministic in the case text)
+    let delay = if case_hash(&c.encode()) % 3 == 0 { 300 } else { 0 };
+    let (tee, mut parts) = make_tee(delay);
     let (dtx, drx) = mpsc::channel();
     let rt = rt();
     let first: Worker = WorkerSink::new(Probe { inner: tee, dropped: dtx }, Duration::from_secs(3600));
@@ -698,11 +746,11 @@ fn run_worker(c: &Case) -> Run {
     }
     handles.clear();
     // the thread must emit what it holds and let go of the inner sink
-    let exited = drx.recv_timeout(EXIT_WAIT).is_ok();
+    let exited = drx.recv_timeout(exit_wait()).is_ok();
     run.exited = Some(exited);
     run.end_epoch = Some(run.epochs.len());
     run.epochs.push(parts.take());
-    run.raw = Some(parts.raw.inspector.entries());
+    run.raw = Some(parts.raw.entries());
     if exited {
         // nothing may be emitted after the inner sink was dropped; and nothing twice
         std::thread::yield_now();
@@ -1206,7 +1254,7 @@ fn run_timed(c: &Case) -> (Vec<In>, Vec<Agg>, Option<String>) {
             }
             ('p', Some(ms), None) => std::thread::sleep(Duration::from_millis(ms as u64)),
             ('F', _, None) => {
-                let r = catch(|| rt.block_on(async { tokio::time::timeout(EXIT_WAIT, w.flush()).await }));
+                let r = catch(|| rt.block_on(async { tokio::time::timeout(exit_wait(), w.flush()).await }));
                 if !matches!(r, Ok(Ok(()))) {
                     trouble = Some("flush did not complete".to_string());
                     break;
@@ -1216,7 +1264,7 @@ fn run_timed(c: &Case) -> (Vec<In>, Vec<Agg>, Option<String>) {
         }
     }
     drop(w);
-    if drx.recv_timeout(EXIT_WAIT).is_err() {
+    if drx.recv_timeout(exit_wait()).is_err() {
         trouble = Some("worker thread did not terminate".into());
     }
     let aggs = ts.inspector.entries().iter().map(agg_of).collect();
@@ -1298,7 +1346,7 @@ fn run_mt(c: &Case) -> (Vec<Vec<In>>, Vec<Agg>, Option<String>) {
             let mut bad = false;
             for _ in 0..flushes {
                 std::thread::yield_now();
-                let r = catch(|| rt.block_on(async { tokio::time::timeout(EXIT_WAIT, h.flush()).await }));
+                let r = catch(|| rt.block_on(async { tokio::time::timeout(exit_wait(), h.flush()).await }));
                 bad |= !matches!(r, Ok(Ok(())));
             }
             bad
@@ -1310,7 +1358,7 @@ fn run_mt(c: &Case) -> (Vec<Vec<In>>, Vec<Agg>, Option<String>) {
             trouble = Some("a flush did not complete".to_string());
         }
         drop(w);
-        if drx.recv_timeout(EXIT_WAIT).is_err() {
+        if drx.recv_timeout(exit_wait()).is_err() {
             trouble = Some("worker thread did not terminate".into());
         }
         let aggs = ts.inspector.entries().iter().map(agg_of).collect();
@@ -1454,9 +1502,15 @@ fn main() {
     let mut answers: Vec<(usize, String, String)> = vec![]; // (case index, component, expected reply)
     let mut encoded: Vec<String> = vec![];
     let mut clean_disagree_candidates: Vec<usize> = vec![];
+    let mut liveness_failures = 0u32;
     for (ci, c) in cases.iter().enumerate() {
         let enc = c.encode();
         encoded.push(enc.clone());
+        if liveness_failures > 0 && matches!(c.pipeline(), "worker" | "timed" | "mt") {
+            // do not pile up stuck threads: one witness is enough
+            rep.bump("skipped:worker case after a liveness failure");
+            continue;
+        }
         rep.bump(&format!("pipeline:{}", c.pipeline()));
         let ninputs = c.toks.iter().filter(|t| t.input.is_some()).count();
         rep.bump(&format!("inputs:{}", match ninputs { 0 => "0", 1..=3 => "1-3", 4..=10 => "4-10", 11..=25 => "11-25", _ => "26+" }));
@@ -1502,7 +1556,21 @@ fn main() {
                     rep.sample(json!({"case": enc, "impl": run.canonical(c.pipeline())}));
                 }
                 if let Some(_what) = oracle(c, &run) {
-                    let small = shrink_case(c, |cc| oracle(cc, &run_impl(cc)).is_some());
+                    let liveness = run.exited == Some(false) || run.trouble.iter().any(|t| t == "flush-timeout");
+                    let small = if liveness {
+                        // a thread that never answers / never exits: every re-run costs the full wait and may
+                        // leave a spinning thread behind, so only a few fixed reductions are tried, with a
+                        // short wait; the chosen case is confirmed below with the full wait
+                        liveness_failures += 1;
+                        WAIT_MS.store(1_500, Ordering::Relaxed);
+                        let sends: Vec<Tok> = c.toks.iter().filter(|t| t.tag == 's' && t.idx == Some(0)).take(1).cloned().collect();
+                        let cands = [c.with(&[]), c.with(&sends), c.clone()];
+                        let pick = cands.iter().find(|cc| oracle(cc, &run_impl(cc)).is_some()).cloned().unwrap_or_else(|| c.clone());
+                        WAIT_MS.store(20_000, Ordering::Relaxed);
+                        pick
+                    } else {
+                        shrink_case(c, |cc| oracle(cc, &run_impl(cc)).is_some())
+                    };
                     let r2 = run_impl(&small);
                     let what = oracle(&small, &r2).unwrap_or_else(|| "oracle failure not reproducible on the shrunk case".into());
                     let site = match c.pipeline() {
